@@ -55,6 +55,18 @@ CLAIMED = {
  "C19": ("Scripted receiver that acknowledges slowly, in bursts, selectively or not at all, against writers with seeded initial/maximum transmit-buffer sizes (tiny rings, growth steps, wrapped rings); oracles: accepted - acknowledged bytes <= max(initial, maximum), ring capacity <= limit, a blocked write completes at the instant an ACK frees space, every payload byte on the wire equals the written stream at its offset (growth keeps order).",
          TRUST + "Acknowledged = longest cumulatively-or-selectively acknowledged prefix (what a ring can release). Known finding F1.",
          SIM + ": scripted-peer ACK schedules, conservation oracle accepted/acked/wire bytes", "DESIGN.md §3 C19"),
+ "C09": ("Metamorphic pairs of simulated runs: the same scenario (configuration, workload, fault decisions by datagram ordinal) is executed with small initial sequence numbers / connection ids and again with numbers at or near the 16-bit wrap, the sign boundary, 0 and 65535 (hook: UtpEnvironment::random_u16 forced); the two packet traces, fates and application histories must be identical after relabelling by the difference of the initial values. A wide-window family (loss-free, 12-92 byte segments, 1 MiB buffers, long fat pipe) puts thousands of packets in the queue when the numbers wrap.",
+         TRUST + "NOT claimed: the second sentence's 'for the arithmetic itself, all pairs of 16-bit values' by exhaustive enumeration - a pure function of its input is not a simulation target; the arithmetic is exercised only through the distances running connections produce (up to several thousand packets).",
+         SIM + ": metamorphic comparison of two seeded simulated runs differing only in the environment's random_u16 stream", "DESIGN.md §3 C09"),
+ "C10": ("A raw attacker endpoint injects seeded hostile datagrams at a real socket while honest connections run on it and a later connect/accept pair probes the service: garbage, truncations, bad version/type, absurd seq/ack/window values, ACKs and SACKs of data never sent, SACK extensions of any length (0..255), unknown / overrunning extension chains, types illegal in the state, from its own address, from unbound addresses and with the honest peer's spoofed address, aimed at unknown ids, at the attacker's own established connection, and next to (±1..3) the honest connection's id. Oracles: no panic, no 'bug:' error anywhere, connect/accept never report a dead dispatcher, receive/transmit buffering and socket tables bounded, every honest connection completes intact.",
+         TRUST + "NOT claimed: 'for all byte strings' by enumeration (only the seeded population is covered; the parser differential is C11). A spoofed datagram that names exactly the honest connection's id, and a spoofed SYN that takes the id of the honest peer's next connection, are attacks on that connection itself and exempt from the isolation oracle. A SYN flood beyond the accept calls provided is not generated.",
+         SIM + ": seeded hostile-datagram injection (faults) into simulated honest conversations, crash/bug/isolation/bound oracles", "DESIGN.md §3 C10"),
+ "C12": ("2-4 real sockets with 2-28 simultaneous connections in both directions (several per address pair), per-stream keyed payloads, colliding connection-id counters (every socket starts at the same id, ids at 0/65535), connection limits 1-10, loss/dup/reorder or loss-free; oracles: every stream intact (per-connection C01), an accepted stream surfaces on the socket it was addressed to and once, receive connection ids of simultaneously live connections between one address pair are unique (hook H6), live connections never exceed the limit, in loss-free runs every established connection completes undisturbed by refused attempts.",
+         TRUST + "Known finding F1.",
+         SIM + ": seeded search over concurrent connection schedules, per-connection stream oracle + id-uniqueness and limit invariants over probes", "DESIGN.md §3 C12"),
+ "C13": ("One listener and 1-14 connector sockets, up to 54 connects in bursts, accept calls before / after / long after the SYNs, cancelled connect and accept futures, duplicate SYNs, listener connection limits; oracles: a successful connect surfaces at exactly one accept and the pair is wired together (token + per-connection C01), requests are handed over in SYN arrival order and accept calls served in call order, backlog <= 32 and RESET only while it is full, no SYN vanishes (accepted, queued or refused), a failed connect is never due to a leaked connecting slot, no slot held at the end, no request left queued while an accept waits.",
+         TRUST + "Arrival-order clause judged only when the network delivered no SYN twice. Known finding F1.",
+         SIM + ": seeded search over connect/accept/cancel interleavings, pairing/order/conservation oracles over API + wire + socket probes", "DESIGN.md §3 C13"),
 }
 NOT_APPLICABLE = {}
 
